@@ -520,7 +520,7 @@ Section Top.
   (* exogenous slices: fit/update get the rows at exactly the training positions; predict gets the
      rows at every position after the cutoff up to the last test position; without X, nothing *)
   Definition call_x (c : call XV) : xdata XV :=
-    match c with Fit _ x _ => x | Update _ x => x | Predict _ x => x end.
+    match c with Fit _ x _ => x | Update _ x => x | Predict _ x => x | FitP _ x _ _ => x end.
 
   Theorem evaluate_exog_slices sp st rows tr : valid_splitter sp -> eval sp st = Ok (rows, tr) ->
     exists ss, splitter_splits sp = Ok ss /\ tr = hist sp st ss /\
